@@ -318,14 +318,29 @@ func c04R3(e *Engine) {
 				return
 			}
 			v, isK := constBool(st.Val)
-			if !isK || !v {
+			conds := condsAt(in.Block())
+			if !isK {
+				// started = (pk == startKey): the flag takes the value of a comparison – the comparison is the resume test
+				b, isB := strip(st.Val).(*ssa.BinOp)
+				if !isB || b.X.Type().Underlying().String() != "string" {
+					return
+				}
+				if _, isC := constString(b.Y); isC {
+					return // initialisation: started = (startKey == "")
+				}
+				if _, isC := constString(b.X); isC {
+					return
+				}
+				conds = append(append([]Cond{}, conds...), Cond{b, true})
+			} else if !v {
 				return // initialisation from "no start key"
 			}
 			n++
-			construct := e.fname(fn) + ":resume-test"
+			// (keyed by what it is, not by the function it sits in: the same finding after the step is inlined or extracted)
+			construct := "core:resume-test"
 			kind := ""
 			directed := false
-			for _, cd := range condsAt(in.Block()) {
+			for _, cd := range conds {
 				cd = normCond(cd)
 				for _, o := range e.origins(cd.V) {
 					if strings.Contains(o, "ScanIndexForward") {
@@ -386,7 +401,32 @@ func (e *Engine) resumeOperands(fn *ssa.Function, b *ssa.BinOp) (bool, string) {
 				return true
 			}
 		}
-		return false
+		// the step inlined: the key at the position (a string handed back by a position function of the engine), or – when
+		// reading through an index – the primary key its entry cursor hands back for it
+		srcs := []ssa.Value{strip(v)}
+		if ph, ok := strip(v).(*ssa.Phi); ok {
+			srcs = phiSources(ph)
+		}
+		if len(srcs) == 0 {
+			return false
+		}
+		for _, s := range srcs {
+			switch x := strip(s).(type) {
+			case *ssa.Call:
+				g := x.Call.StaticCallee()
+				if g == nil || e.fnRole(g) != "core" || !isStringType(x.Type()) {
+					return false
+				}
+			case *ssa.Extract:
+				c, ok := x.Tuple.(*ssa.Call)
+				if !ok || x.Index != 0 || c.Call.StaticCallee() == nil || e.fnRole(c.Call.StaticCallee()) != "core" || !isStringType(x.Type()) {
+					return false
+				}
+			default:
+				return false
+			}
+		}
+		return true
 	}
 	isStartKey := func(v ssa.Value) (bool, string) {
 		os := e.origins(v)
